@@ -1,3 +1,831 @@
+// Driver for C17 (legacy expression migration preserves meaning).
+//
+// Streams (every random choice derives from the run's PRNG):
+//
+//	corpus   fixed templates: the inputs of DESIGN.md §5 F14a/F14b (repaired by /repo 6c36c2e: must stay
+//	         repaired), F14c, samples of the pinned tests, arity errors, date arithmetic
+//	gen      random legacy templates: body pieces (@@, lone @, e-mail addresses, @names that are not top
+//	         levels) interleaved with @identifier and @(expression) of random legacy trees: every function of
+//	         the regenerated table (coq/gen/LegacyTable.json) and unknown ones, right and wrong arity, every
+//	         operator at every nesting position, all literal forms, context references of every mapping kind,
+//	         random spacing, the three migration options
+//	typed    "@(" tree ")" for typed evaluable trees (ref.go) with random operand values
+//	literal  random character strings as legacy literals
+//
+// Correspondence: for every template of corpus/gen/typed the token list of the REAL template scanner, the
+// MigrateContextReference results for the names that occur, the options, the output of the REAL
+// expressions.MigrateTemplate and the trees excellent.Parse builds for the expressions of the output go to
+// cases_C17_*.v; model/LegacyCorr.v must reproduce the output STRING and the trees.
+//
+// Direct oracle (the property sentence on the real code, independent of the Coq model):
+//
+//	O1 parses      every expression of the migrated template parses (clean trees: known functions, right arity)
+//	O2 value       the migrated template evaluates (real evaluator) to what the reference interpreter of the
+//	               legacy tree (ref.go) gives, on random operands
+//	O3 literals    @("s") with quotes doubled migrates to a template that evaluates to s (alone and inside &)
+//	O4 body        MigrateTemplate(t) is the concatenation over the scanner tokens of t of: the body token
+//	               itself / the migration of the identifier or expression alone
 package main
 
-func main() {}
+import (
+	"encoding/json"
+	"fmt"
+	"os"
+	"path/filepath"
+	"regexp"
+	"strings"
+
+	"github.com/nyaruka/goflow/excellent"
+	"github.com/nyaruka/goflow/flows"
+	"github.com/nyaruka/goflow/flows/definition/legacy/expressions"
+
+	"verifharness/pkg/hx"
+)
+
+// ---------------------------------------------------------------------------------------------
+// the real code
+
+type seg struct {
+	T int    `json:"t"` // 0 body 1 identifier 2 expression
+	S string `json:"s"`
+}
+
+func scanReal(tpl string, tops []string) []seg {
+	sc := excellent.NewXScanner(strings.NewReader(tpl), tops)
+	sc.SetUnescapeBody(false)
+	var out []seg
+	for i := 0; i < len(tpl)+5; i++ {
+		tt, s := sc.Scan()
+		if tt == excellent.EOF {
+			break
+		}
+		out = append(out, seg{int(tt), s})
+	}
+	return out
+}
+
+type options struct {
+	DefaultToSelf bool `json:"default_to_self"`
+	URLEncode     bool `json:"url_encode"`
+	RawDates      bool `json:"raw_dates"`
+}
+
+func migrateReal(tpl string, o options) (out string, hasErr bool, panicked string) {
+	defer func() {
+		if r := recover(); r != nil {
+			panicked = fmt.Sprint(r)
+		}
+	}()
+	s, err := expressions.MigrateTemplate(tpl, &expressions.MigrateOptions{DefaultToSelf: o.DefaultToSelf, URLEncode: o.URLEncode, RawDates: o.RawDates})
+	return s, err != nil, ""
+}
+
+// g3 rendering of an excellent.Parse tree (constructors of model/LegacyCorr.v)
+func g3(e excellent.Expression) string {
+	bin := func(op string, a, b excellent.Expression) string {
+		return "(G3Bin " + op + " " + g3(a) + " " + g3(b) + ")"
+	}
+	switch x := e.(type) {
+	case *excellent.TextLiteral:
+		return "(G3Text " + hx.Str(x.Value.Native()) + ")"
+	case *excellent.NumberLiteral:
+		return "(G3Num " + hx.Str(x.Value.Native().String()) + ")"
+	case *excellent.BooleanLiteral:
+		if x.Value.Native() {
+			return "G3True"
+		}
+		return "G3False"
+	case *excellent.NullLiteral:
+		return "G3Null"
+	case *excellent.ContextReference:
+		return "(G3Ref " + hx.Str(x.Name) + ")"
+	case *excellent.DotLookup:
+		return "(G3Dot " + g3(x.Container) + " " + hx.Str(x.Lookup) + ")"
+	case *excellent.ArrayLookup:
+		return "(G3Index " + g3(x.Container) + " " + g3(x.Lookup) + ")"
+	case *excellent.FunctionCall:
+		return "(G3Call " + g3(x.Func) + " " + hx.List(x.Params, g3) + ")"
+	case *excellent.Parentheses:
+		return "(G3Paren " + g3(x.Exp) + ")"
+	case *excellent.Negation:
+		return "(G3Neg " + g3(x.Exp) + ")"
+	case *excellent.Concatenation:
+		return bin("OAmp", x.Exp1, x.Exp2)
+	case *excellent.Addition:
+		return bin("OAdd", x.Exp1, x.Exp2)
+	case *excellent.Subtraction:
+		return bin("OSub", x.Exp1, x.Exp2)
+	case *excellent.Multiplication:
+		return bin("OMul", x.Exp1, x.Exp2)
+	case *excellent.Division:
+		return bin("ODiv", x.Exp1, x.Exp2)
+	case *excellent.Exponent:
+		return bin("OExp", x.Expression, x.Exponent)
+	case *excellent.Equality:
+		return bin("OEq", x.Exp1, x.Exp2)
+	case *excellent.InEquality:
+		return bin("ONeq", x.Exp1, x.Exp2)
+	case *excellent.LessThan:
+		return bin("OLt", x.Exp1, x.Exp2)
+	case *excellent.LessThanOrEqual:
+		return bin("OLte", x.Exp1, x.Exp2)
+	case *excellent.GreaterThan:
+		return bin("OGt", x.Exp1, x.Exp2)
+	case *excellent.GreaterThanOrEqual:
+		return bin("OGte", x.Exp1, x.Exp2)
+	}
+	return "G3Other"
+}
+
+func parseReal(e string) (tree string, ok bool) {
+	defer func() {
+		if r := recover(); r != nil {
+			tree, ok = "", false
+		}
+	}()
+	x, err := excellent.Parse(e, nil)
+	if err != nil {
+		return "", false
+	}
+	return g3(x), true
+}
+
+// ---------------------------------------------------------------------------------------------
+// the regenerated table (coq/gen/LegacyTable.json, written by translators/cmd/legacytable on this run)
+
+type tentry struct {
+	Name     string   `json:"name"`
+	Kind     string   `json:"kind"`
+	Arg      string   `json:"arg"`
+	Precs    []int    `json:"precs"`
+	Defaults []string `json:"defaults"`
+	PMs      []string `json:"pms"`
+}
+
+var table []tentry
+var tableByName = map[string]tentry{}
+
+var idxVerb = regexp.MustCompile(`%\[([0-9]+)\]`)
+
+// arity range [lo,hi] with which a call migrates to something meaningful
+func (e tentry) arity() (int, int) {
+	switch e.Kind {
+	case "template":
+		n := strings.Count(e.Arg, "%s") + strings.Count(e.Arg, "%v")
+		for _, m := range idxVerb.FindAllStringSubmatch(e.Arg, -1) {
+			k := 0
+			fmt.Sscanf(m[1], "%d", &k)
+			if k > n {
+				n = k
+			}
+		}
+		return n, n
+	case "join":
+		return 1, 4
+	case "params":
+		return 1, len(e.PMs)
+	}
+	// as is / rename: the migrator does not care; pick what the new function takes most of the time
+	switch e.Name {
+	case "now", "today", "rand":
+		return 0, 0
+	case "and", "or", "max", "min", "average":
+		return 1, 3
+	case "if", "substitute", "date":
+		return 3, 3
+	case "mod", "rept", "randbetween", "datedif", "format_date", "regex_group", "round", "roundup", "rounddown", "percent":
+		return 1, 3
+	}
+	return 1, 1
+}
+
+func loadTable() {
+	dir := os.Getenv("VERIF_DIR")
+	if dir == "" {
+		dir = "/verif"
+	}
+	b, err := os.ReadFile(filepath.Join(dir, "coq", "gen", "LegacyTable.json"))
+	if err != nil {
+		panic(err)
+	}
+	var t struct {
+		Table []tentry `json:"table"`
+	}
+	if err := json.Unmarshal(b, &t); err != nil {
+		panic(err)
+	}
+	table = t.Table
+	for _, e := range table {
+		tableByName[e.Name] = e
+	}
+}
+
+// ---------------------------------------------------------------------------------------------
+// generators
+
+var refNames = []string{
+	"contact", "contact.name", "contact.first_name", "contact.age", "contact.gender", "contact.uuid", "contact.groups",
+	"contact.tel", "contact.tel_e164", "contact.tel.display", "contact.tel.path", "contact.twitter.urn", "contact.mailto",
+	"contact.language", "contact.created_on", "contact.n1", "contact.s1",
+	"flow", "flow.color", "flow.color.category", "flow.color.text", "flow.color.time", "flow.color.value", "flow.2factor",
+	"flow.2factor.value", "flow.1337", "flow.contact.name", "flow.contact.age",
+	"child", "child.age", "child.age.category", "child.contact.tel", "parent", "parent.role", "parent.role.value",
+	"parent.contact.groups", "extra.flow.role",
+	"step", "step.value", "step.text", "step.time", "step.attachments", "step.attachments.0", "step.contact.name",
+	"channel", "channel.name", "channel.tel_e164",
+	"date", "date.now", "date.today", "date.tomorrow", "date.yesterday",
+	"extra", "extra.address.state", "extra.results.1", "extra.a.1b.c",
+	"foo", "foo.bar", "Contact.Name", "CONTACT.AGE", "Flow.Color", "results.x", "fields.age",
+}
+
+var dateish = []string{"date.now", "date.today", "date.tomorrow", "date", "contact.created_on", "contact.join_date"}
+
+var litAlphabet = []string{"a", "b", "z", "A", "Q", "0", "7", " ", " ", "\"", "\"", "(", ")", "@", ",", ".", "-", "+", "&", "'", "é", "ß", "λ", "Ж", "中", "😀", "\t", "\n", "\\", "_", ":"}
+var bodyAlphabet = []string{"a", "b", "H", "i", " ", " ", " ", ".", ",", "!", "?", "@", "@@", "(", ")", "\"", "é", "中", "\n", "1", "@x", "@foo.bar", "bob@nyaruka.com", "@ ", "\\"}
+
+func randText(r *hx.Rand, alphabet []string, maxLen int, noBackslash bool) string {
+	n := r.Intn(maxLen + 1)
+	var sb strings.Builder
+	for i := 0; i < n; i++ {
+		c := hx.Pick(r, alphabet)
+		if noBackslash && c == "\\" {
+			c = "/"
+		}
+		sb.WriteString(c)
+	}
+	return sb.String()
+}
+
+func mixCase(r *hx.Rand, s string) string {
+	switch r.Intn(4) {
+	case 0:
+		return strings.ToLower(s)
+	case 1:
+		if len(s) > 0 {
+			return strings.ToUpper(s[:1]) + strings.ToLower(s[1:])
+		}
+	}
+	return strings.ToUpper(s)
+}
+
+type genCtx struct {
+	r     *hx.Rand
+	clean bool // only known functions with right arity, names the new lexer reads as one NAME, no backslash in literals
+}
+
+func (g *genCtx) leaf() *lt {
+	r := g.r
+	switch r.Intn(10) {
+	case 0, 1:
+		return lStr(randText(r, litAlphabet, 6, g.clean && r.Chance(19, 20)))
+	case 2, 3:
+		return lDec(hx.Pick(r, []string{"0", "1", "2", "3", "5", "10", "12", "007", "1.5", "0.50", "2.0", "100"}))
+	case 4:
+		return &lt{K: hx.Pick(r, []string{"true", "false"})}
+	case 5:
+		return lCall(mixCase(r, hx.Pick(r, []string{"now", "today", "true", "false", "rand"})))
+	default:
+		n := hx.Pick(r, refNames)
+		if g.clean && (strings.HasPrefix(n, "foo") || strings.HasPrefix(n, "results") || strings.HasPrefix(n, "fields")) {
+			n = "contact.age"
+		}
+		return lRef(n)
+	}
+}
+
+var allOps = []string{"^", "*", "/", "+", "-", "<=", "<", ">=", ">", "=", "<>", "&"}
+
+func (g *genCtx) tree(depth int) *lt {
+	r := g.r
+	if depth <= 0 || r.Chance(1, 6) {
+		return g.leaf()
+	}
+	switch r.Intn(12) {
+	case 0:
+		return lParen(g.tree(depth - 1))
+	case 1:
+		return mkNeg(g.tree(depth - 1))
+	case 2, 3, 4, 5:
+		op := hx.Pick(r, allOps)
+		if (op == "+" || op == "-") && r.Chance(1, 3) {
+			// date arithmetic
+			var a *lt
+			if r.Bool() {
+				a = lRef(hx.Pick(r, dateish))
+			} else {
+				a = lCall(hx.Pick(r, []string{"NOW", "TODAY", "DATEVALUE", "DATE"}))
+				switch a.S {
+				case "DATEVALUE":
+					a.A = []*lt{lStr("2012-02-03")}
+				case "DATE":
+					a.A = []*lt{lDec("2012"), lDec("12"), lDec("25")}
+				}
+			}
+			var b *lt
+			switch r.Intn(4) {
+			case 0:
+				b = lCall("TIME", lDec("2"), lDec("30"), lDec("0"))
+			case 1:
+				b = lCall("TIMEVALUE", lStr("10:30"))
+			case 2:
+				b = lDec(hx.Pick(r, []string{"5", "1", "30"}))
+			default:
+				b = g.tree(depth - 1)
+			}
+			return mkBin(op, a, b)
+		}
+		return mkBin(op, g.tree(depth-1), g.tree(depth-1))
+	default:
+		// a function call
+		if !g.clean && r.Chance(1, 12) {
+			name := hx.Pick(r, []string{"foo", "my_func", "null", "Title", "x.y"})
+			n := r.Intn(3)
+			args := make([]*lt, n)
+			for i := range args {
+				args[i] = g.tree(depth - 1)
+			}
+			return lCall(name, args...)
+		}
+		e := hx.Pick(r, table)
+		lo, hi := e.arity()
+		n := r.Range(lo, hi)
+		if !g.clean && r.Chance(1, 15) {
+			n = r.Intn(5)
+		}
+		args := make([]*lt, n)
+		for i := range args {
+			args[i] = g.tree(depth - 1)
+			if e.Kind == "params" && i < len(e.PMs) {
+				switch e.PMs[i] {
+				case "byspaces":
+					if g.clean || r.Chance(4, 5) {
+						args[i] = &lt{K: hx.Pick(r, []string{"true", "false"})}
+					}
+				case "decremented":
+					if r.Chance(1, 3) {
+						args[i] = lDec(hx.Pick(r, []string{"1", "2", "0", "10", "007"}))
+					} else if r.Chance(1, 8) {
+						args[i] = mkNeg(lDec("3"))
+					}
+				}
+			}
+		}
+		return lCall(mixCase(r, e.Name), args...)
+	}
+}
+
+// features of a tree used to classify oracle failures (computed from the input only)
+func hasBackslashLiteral(t *lt) bool {
+	found := false
+	t.walk(func(n *lt) {
+		if n.K == "str" && strings.Contains(n.S, "\\") {
+			found = true
+		}
+	})
+	return found
+}
+
+func hasNewlineQuoteLiteral(t *lt) bool {
+	found := false
+	t.walk(func(n *lt) {
+		if n.K == "str" && strings.Contains(n.S, "\n") && strings.Contains(n.S, "\"") {
+			found = true
+		}
+	})
+	return found
+}
+
+func rootClass(t *lt) string {
+	switch t.K {
+	case "call":
+		return "call:" + strings.ToLower(t.S)
+	case "bin":
+		return "op:" + t.S
+	}
+	return t.K
+}
+
+// the construct that re-shapes operands, and the shape of the operand that sits in a position where grouping
+// matters: used as the class of a value mismatch
+func groupingClass(t *lt) string {
+	var cls []string
+	var visit func(n *lt, parent string)
+	visit = func(n *lt, parent string) {
+		me := rootClass(n)
+		if parent != "" && n.K != "paren" {
+			switch {
+			case n.K == "bin" || n.K == "neg":
+				cls = append(cls, parent+">"+me)
+			case n.K == "call":
+				switch strings.ToLower(n.S) {
+				case "sum", "power", "exp", "concatenate", "weekday":
+					cls = append(cls, parent+">"+me)
+				}
+			}
+		}
+		p := me
+		if n.K == "paren" {
+			p = parent
+		}
+		for _, a := range n.A {
+			visit(a, p)
+		}
+	}
+	visit(t, "")
+	if len(cls) == 0 {
+		return "value:" + rootClass(t)
+	}
+	return "grouping:" + cls[0]
+}
+
+// ---------------------------------------------------------------------------------------------
+// correspondence cases
+
+var nameRe = regexp.MustCompile(`[\pL][\pL\pN_.]*`)
+
+type tcase struct {
+	Template string  `json:"template"`
+	Options  options `json:"options"`
+}
+
+func coqSeg(s seg) string {
+	return []string{"SBody", "SIdent", "SExpr"}[s.T] + " " + hx.Str(s.S)
+}
+
+func emitCase(sh *sharder, tc tcase, out string, hasErr bool) {
+	segs := scanReal(tc.Template, expressions.ContextTopLevels)
+	names := map[string]bool{}
+	for _, s := range segs {
+		if s.T == 1 {
+			names[s.S] = true
+		} else if s.T == 2 {
+			for _, n := range nameRe.FindAllString(s.S, -1) {
+				names[n] = true
+			}
+		}
+	}
+	var pairs []string
+	for _, n := range hx.SortedKeys(names) {
+		pairs = append(pairs, "("+hx.Str(n)+", "+hx.Str(expressions.MigrateContextReference(n, tc.Options.RawDates))+")")
+	}
+	// expressions of the migrated output, with the trees the real parser builds
+	var exprs []string
+	if !hasErr {
+		for _, s := range scanReal(out, flows.RunContextTopLevels) {
+			if s.T == 2 {
+				if tr, ok := parseReal(s.S); ok {
+					exprs = append(exprs, "("+hx.Str(s.S)+", Some "+tr+")")
+				} else {
+					exprs = append(exprs, "("+hx.Str(s.S)+", None)")
+				}
+			}
+		}
+	}
+	coq := fmt.Sprintf("{| k_segs := %s; k_ctx := [%s]; k_default_to_self := %s; k_url_encode := %s; k_raw_dates := %s; k_out := %s; k_err := %s; k_exprs := [%s] |}",
+		hx.List(segs, coqSeg), strings.Join(pairs, "; "), hx.Bool(tc.Options.DefaultToSelf), hx.Bool(tc.Options.URLEncode),
+		hx.Bool(tc.Options.RawDates), hx.Str(out), hx.Bool(hasErr), strings.Join(exprs, "; "))
+	sh.add(coq, tc, map[string]any{"out": out, "err": hasErr})
+}
+
+// sharder writes cases_C17_<nnn>.v files
+type sharder struct {
+	o     *hx.Opts
+	res   *hx.Result
+	shard int
+	file  *hx.CoqFile
+	nfile int
+}
+
+const header = "From Coq Require Import List NArith.\nFrom Verif Require Import model.LegacyTy model.LegacySyntax model.Legacy model.LegacyCorr.\nImport ListNotations.\nOpen Scope N_scope.\nDefinition cases : list lcase := ["
+const footer = "].\nDefinition M := Eval vm_compute in mismatches cases.\nPrint M."
+
+func (s *sharder) add(coq string, input, impl any) {
+	if s.file == nil {
+		s.file = hx.NewCoqFile(fmt.Sprintf("cases_C17_%03d.v", s.nfile), header)
+		s.nfile++
+	}
+	sep := ";"
+	if s.file.N == 0 {
+		sep = " "
+	}
+	s.file.Add(sep + " " + coq)
+	s.res.Cases = append(s.res.Cases, hx.Case{File: s.file.Name, Index: s.file.N, Input: input, Impl: impl})
+	s.file.N++
+	if s.file.N >= s.shard {
+		s.flush()
+	}
+}
+
+func (s *sharder) flush() {
+	if s.file != nil {
+		s.file.Add(footer)
+		s.file.Save(s.o, s.res)
+		s.file = nil
+	}
+}
+
+// ---------------------------------------------------------------------------------------------
+// direct oracles
+
+// O1: every expression of the migrated template parses
+func oracleParses(res *hx.Result, tc tcase, trees []*lt, out string) {
+	res.OracleChecks++
+	for _, s := range scanReal(out, flows.RunContextTopLevels) {
+		if s.T != 2 {
+			continue
+		}
+		if _, ok := parseReal(s.S); !ok {
+			cls := "parse:other"
+			for _, t := range trees {
+				if hasBackslashLiteral(t) {
+					cls = "literal:backslash"
+					break
+				}
+				cls = "parse:" + rootClass(t)
+			}
+			res.Fail(cls, tc, fmt.Sprintf("migrated template %q: expression %q does not parse", out, s.S))
+			return
+		}
+	}
+}
+
+// O4: text outside expressions is unchanged, and the migration is compositional over the scanner tokens
+func oracleBody(res *hx.Result, tc tcase, out string) {
+	res.OracleChecks++
+	var sb strings.Builder
+	for _, s := range scanReal(tc.Template, expressions.ContextTopLevels) {
+		switch s.T {
+		case 0:
+			sb.WriteString(s.S)
+		case 1:
+			o, _, _ := migrateReal("@"+s.S, tc.Options)
+			sb.WriteString(o)
+		case 2:
+			o, _, _ := migrateReal("@("+s.S+")", tc.Options)
+			sb.WriteString(o)
+		}
+	}
+	if sb.String() != out {
+		res.Fail("body:not-compositional", tc, fmt.Sprintf("migrated %q, token-wise %q", out, sb.String()))
+	}
+}
+
+// O3: a legacy literal denotes the same characters after migration
+func oracleLiteral(res *hx.Result, s string, inConcat bool) {
+	res.OracleChecks++
+	tpl := "@(" + legacyQuote(s) + ")"
+	want := s
+	if inConcat {
+		tpl = "@(\"<\" & " + legacyQuote(s) + " & \">\")"
+		want = "<" + s + ">"
+	}
+	out, hasErr, pan := migrateReal(tpl, options{})
+	got, evErr := "", false
+	if pan == "" && !hasErr {
+		got, evErr = evalMigrated(out, nil)
+	}
+	if pan != "" || hasErr || evErr || got != want {
+		cls := "literal:other"
+		switch {
+		case strings.Contains(s, "\\"):
+			cls = "literal:backslash"
+		case strings.Contains(s, "\n") && strings.Contains(s, "\""):
+			cls = "literal:newline-and-quote"
+		}
+		res.Fail(cls, map[string]any{"template": tpl}, fmt.Sprintf("literal %q: migrated %q evaluates to %q (migration error %v, evaluation error %v, panic %q)", s, out, got, hasErr, evErr, pan))
+	}
+}
+
+// O2: value of the migrated template vs the reference interpreter
+func oracleValue(res *hx.Result, tc tcase, t *lt, vars []varDecl, out string) (compared bool) {
+	vm := map[string]rval{}
+	for _, v := range vars {
+		vm[v.Name] = v.V
+	}
+	want, ok := refEval(t, vm)
+	if !ok {
+		res.Dist("typed:outside-reference-domain")
+		return false
+	}
+	res.OracleChecks++
+	got, evErr := evalMigrated(out, vars)
+	if evErr || got != want.render() {
+		cls := groupingClass(t)
+		if hasBackslashLiteral(t) {
+			cls = "literal:backslash"
+		}
+		vs := map[string]string{}
+		for _, v := range vars {
+			vs[v.Name] = v.V.render()
+		}
+		res.Fail(cls, map[string]any{"template": tc.Template, "vars": vs},
+			fmt.Sprintf("legacy %q denotes %q; migrated %q evaluates to %q (evaluation error %v)", tc.Template, want.render(), out, got, evErr))
+	}
+	return true
+}
+
+// ---------------------------------------------------------------------------------------------
+
+var corpus = []string{
+	// F14a / F14b (repaired by the fix; must stay repaired)
+	`@(POWER(1+2, 3))`, `@(SUM(1,2)*3)`, `@(WEEKDAY("2024-01-01")*2)`, `@(CONCATENATE("a","b") = "ab")`, `@(RIGHT("hello", 1+1))`,
+	`@(10 - 2 ^ 2)`, `@(contact.age - 2 ^ 2)`, `@(EXP(1+1))`, `@(3 + SUM(1,2))`, `@(SUM(1,2) + 3)`, `@(2 ^ POWER(2, 3))`, `@(POWER(2,3) ^ 2)`,
+	`@(-POWER(2,2))`, `@(WORD("a b c", 1 = 1))`, `@(contact.x - 2 * 3)`, `@(FIELD("a,b,c", contact.x & "", ","))`, `@(SUM(1, 2 = 2))`,
+	`@(NOW() - ABS(1) * 2)`, `@(1 - -2)`, `@(contact.x - -2)`, `@(-(-2))`, `@(--2)`, `@(2 * SUM(1, 2) * 3)`, `@(CONCATENATE("a", 1 + 2) & SUM(1, 2))`,
+	// F14c and literal forms
+	`@("a\b")`, `@("a""b")`, `@(" "" ")`, `@("")`, `@("""")`, "@(\"a\n\"\"b\")", `@("\D\w+[\.*]")`, `@("a\")`, `@("a\" & "b")`,
+	// arity errors, unknown functions, keywords as function names
+	`@(POWER(1))`, `@(POWER(1,2,3))`, `@(SUM())`, `@(NULL(1))`, `@(TRUE())`, `@(FALSE(1))`, `@(DAYS())`, `@(FIXED())`, `@(FIXED(1.234))`, `@(WORD())`, `@(foo.bar(1))`,
+	// pinned tests (samples)
+	`@(date.now + 5)`, `@(date.today + 5)`, `@(date.yesterday - 5)`, `@(date.tomorrow - 3 + 10)`, `@(date.now + TIME(2, 30, 0))`, `@(date.now - TIME(2, 30, 0))`,
+	`@(TODAY()+TIMEVALUE("10:30"))`, `@(contact.age + 100 - 5)`, `@((5 + contact.age) / 2)`, `@(WORD(flow.favorite_color, child.age - 22))`,
+	`@(FIELD(flow.favorite_color, child.age, ","))`, `@(DAYS("2016-02-28", "2015-02-28"))`, `@(WORD_SLICE(flow.favorite_color, 2, 4, TRUE))`,
+	`Hi @@@flow.favorite_color @@flow.favorite_color @flow.favorite_color @nyaruka @ @`, `@contact.name...?`, `bob@nyaruka.com`, `@`, `@flow.2factor.value`,
+	`@(1 +)`, `@(`, `@("unterminated)`, `@(1 <> 4)`, `@(1<=4)`, `@(contact.tel_e164 & "x")`, `@step.attachments.0`, `@(flow.1337.category)`,
+}
+
+func randOptions(r *hx.Rand) options {
+	if r.Chance(3, 4) {
+		return options{}
+	}
+	return options{DefaultToSelf: r.Bool(), URLEncode: r.Chance(1, 3), RawDates: r.Bool()}
+}
+
+func main() {
+	o := hx.ParseOpts()
+	if o.Prop == "" {
+		o.Prop = "C17"
+	}
+	loadTable()
+	res := hx.NewResult(o, "templates are built from random legacy trees (every table function, operator, literal form, context reference kind) printed as legacy text with random spacing, plus body text; non-trivial = the tree has depth >= 3 and two different binary operators (functions migrated to infix operators count), or a literal with a quote or backslash; distinct = distinct template + options")
+	r := hx.NewRand(o.Seed)
+	sh := &sharder{o: o, res: res, shard: 150}
+
+	runCase := func(tc tcase, trees []*lt, clean bool, stream string) (string, bool) {
+		out, hasErr, pan := migrateReal(tc.Template, tc.Options)
+		nontriv := false
+		for _, t := range trees {
+			if t.nontrivial() {
+				nontriv = true
+			}
+		}
+		res.Eval(fmt.Sprintf("%q %v", tc.Template, tc.Options), nontriv)
+		res.Dist("stream=" + stream)
+		if pan != "" {
+			res.OracleChecks++
+			res.Fail("panic:migrate", tc, "MigrateTemplate panicked: "+pan)
+			return "", true
+		}
+		if hasErr {
+			res.Dist("migrate-error")
+		}
+		emitCase(sh, tc, out, hasErr)
+		oracleBody(res, tc, out)
+		if clean && !hasErr {
+			oracleParses(res, tc, trees, out)
+		}
+		return out, hasErr
+	}
+
+	if o.Replay != "" {
+		// re-run the recorded failing input (a template with options, or a typed case with variable values)
+		var rj struct {
+			FailingInput struct {
+				Input json.RawMessage `json:"input"`
+			} `json:"failing_input"`
+		}
+		if b, err := os.ReadFile(o.Replay); err == nil && json.Unmarshal(b, &rj) == nil && rj.FailingInput.Input != nil {
+			var in struct {
+				Template string  `json:"template"`
+				Options  options `json:"options"`
+			}
+			if json.Unmarshal(rj.FailingInput.Input, &in) == nil && in.Template != "" {
+				corpus = []string{in.Template}
+				res.Notes = append(res.Notes, "replaying "+in.Template)
+			}
+		}
+	}
+
+	// corpus
+	for _, t := range corpus {
+		tc := tcase{Template: t}
+		out, hasErr := runCase(tc, nil, false, "corpus")
+		if o.Verbose {
+			fmt.Printf("%q -> %q err=%v\n", t, out, hasErr)
+		}
+		res.Sample(map[string]any{"template": t, "migrated": out, "error": hasErr})
+	}
+	// the repaired findings must evaluate to the legacy value (fixed values, no reference interpreter needed)
+	for _, c := range [][2]string{{`@(POWER(1+2, 3))`, "27"}, {`@(SUM(1,2)*3)`, "9"}, {`@(CONCATENATE("a","b") = "ab")`, "true"},
+		{`@(RIGHT("hello", 1+1))`, "lo"}, {`@(10 - 2 ^ 2)`, "6"}, {`@(-POWER(2,2))`, "-4"}, {`@(2 ^ POWER(2, 3))`, "256"},
+		{`@(WEEKDAY("2024-01-01")*2)`, "4"}, {`@(2 * SUM(1, 2) * 3)`, "18"}, {`@(SUM(1, 2) - SUM(3, 4))`, "-4"}} {
+		res.OracleChecks++
+		out, hasErr, _ := migrateReal(c[0], options{})
+		got, evErr := evalMigrated(out, nil)
+		if hasErr || evErr || got != c[1] {
+			res.Fail("grouping:operand-regroups", map[string]any{"template": c[0]}, fmt.Sprintf("legacy %q denotes %q; migrated %q evaluates to %q", c[0], c[1], out, got))
+		}
+	}
+
+	if o.Replay == "" {
+		// gen
+		n := o.Count(500, 20000)
+		rg := r.Fork("gen")
+		for i := 0; i < n; i++ {
+			g := &genCtx{r: rg, clean: rg.Chance(2, 3)}
+			var sb strings.Builder
+			var trees []*lt
+			pieces := rg.Range(1, 3)
+			if rg.Chance(1, 2) {
+				pieces = 1
+			}
+			for p := 0; p < pieces; p++ {
+				if rg.Chance(1, 2) {
+					sb.WriteString(randText(rg, bodyAlphabet, 5, false))
+				}
+				if rg.Chance(1, 6) {
+					sb.WriteString("@" + hx.Pick(rg, refNames))
+				} else {
+					t := g.tree(rg.Range(1, 4))
+					trees = append(trees, t)
+					var sp *hx.Rand
+					if rg.Chance(1, 2) {
+						sp = rg
+					}
+					sb.WriteString("@(" + t.text(sp) + ")")
+				}
+				if rg.Chance(1, 2) {
+					sb.WriteString(randText(rg, bodyAlphabet, 5, false))
+				}
+			}
+			tc := tcase{Template: sb.String(), Options: randOptions(rg)}
+			clean := g.clean
+			for _, t := range trees {
+				if hasBackslashLiteral(t) {
+					clean = false
+					res.Dist("gen:literal-with-backslash")
+				}
+			}
+			if g.clean {
+				res.Dist("gen:clean")
+			}
+			runCase(tc, trees, clean, "gen")
+			if i < 2 {
+				res.Sample(tc)
+			}
+		}
+
+		// typed
+		n = o.Count(600, 30000)
+		rt := r.Fork("typed")
+		compared := 0
+		for i := 0; i < n; i++ {
+			vars := genVars(rt)
+			typ := hx.Pick(rt, []string{"num", "num", "text", "bool"})
+			t := genTyped(rt, typ, rt.Range(1, 4), vars)
+			var sp *hx.Rand
+			if rt.Chance(1, 3) {
+				sp = rt
+			}
+			tc := tcase{Template: "@(" + t.text(sp) + ")"}
+			var out string
+			var hasErr bool
+			if i%3 == 0 {
+				out, hasErr = runCase(tc, []*lt{t}, true, "typed")
+			} else {
+				// (not every typed case goes to the correspondence files: the model evaluation dominates the run time)
+				var pan string
+				out, hasErr, pan = migrateReal(tc.Template, tc.Options)
+				res.Eval(fmt.Sprintf("%q %v", tc.Template, tc.Options), t.nontrivial())
+				res.Dist("stream=typed-oracle-only")
+				if pan != "" {
+					res.Fail("panic:migrate", tc, pan)
+					continue
+				}
+			}
+			if hasErr {
+				res.OracleChecks++
+				res.Fail("parse:legacy-rejected:"+rootClass(t), tc, "MigrateTemplate reported an error for a well-formed legacy expression")
+				continue
+			}
+			if oracleValue(res, tc, t, vars, out) {
+				compared++
+				res.Dist("typed:compared:" + typ)
+			}
+		}
+		res.Notes = append(res.Notes, fmt.Sprintf("value oracle: %d of %d typed trees inside the reference domain", compared, n))
+
+		// literals
+		n = o.Count(400, 20000)
+		rl := r.Fork("literal")
+		for i := 0; i < n; i++ {
+			s := randText(rl, litAlphabet, 8, rl.Chance(3, 4))
+			res.Eval("lit:"+s, strings.ContainsAny(s, "\"\\"))
+			res.Dist("stream=literal")
+			oracleLiteral(res, s, rl.Chance(1, 3))
+		}
+	}
+
+	sh.flush()
+	res.Write(o)
+}
